@@ -167,7 +167,9 @@ def _float_col(rng, n):
     else:
         v = rng.normal(0, 1, n)
         v[rng.random(n) < 0.2] = np.nan
-    return v + 0.0      # no negative zero (excluded: '-0' is read back as integer 0)
+    if kind == 2 and rng.random() < 0.5:
+        return v        # rounding small negative values leaves negative zeros in a whole-number column (known finding KF4)
+    return v + 0.0      # no negative zero
 
 
 def case_round(run, i):
